@@ -36,16 +36,18 @@ where
 
       source.inner_subscribe(sctl.new_observer(
         move |_, x| {
-          {
+          let latest = {
             let mut r = result_next.write().unwrap();
             if let Some(xx) = &*r {
               *r = Some(f.call((xx.clone(), x)));
             } else {
               *r = Some(x);
             }
-          }
-          if let Some(x) = &*result_next.read().unwrap() {
-            sctl_next.sink_next(x.clone());
+            r.clone()
+          };
+          // emit with no lock held: the subscriber may feed the source again from its callback
+          if let Some(x) = latest {
+            sctl_next.sink_next(x);
           }
         },
         move |_, e| {
